@@ -64,6 +64,7 @@ var h2specs = []h2spec{
 	{Name: "slot-wait-get", Reuse: true, SlotWait: true},
 	{Name: "expect-continue-upload", Upload: true, Expect: true},
 	{Name: "early-response-upload", Upload: true, EarlyRsp: true},
+	{Name: "stalled-body-then-peer-reset", Stalled: true},
 }
 
 var h3specs = []h3spec{
@@ -174,14 +175,16 @@ func runJob(j job, seed uint64, quick bool) (out []result) {
 		steps := h2steps(sp)
 		n := len(steps)
 		add := func(o h2obs) { out = append(out, result{H2: &o}) }
-		add(runH2(sp, "none", n, false))
+		if !sp.Stalled { // (without an injection a stalled body source never lets the call end)
+			add(runH2(sp, "none", n, false))
+		}
 		for pos := 0; pos <= n; pos++ {
 			for _, k := range kindsAt(pos, seed, quick) {
 				add(runH2(sp, k, pos, false))
 			}
 		}
 		for pos := 1; pos <= n; pos++ {
-			if len(steps[pos-1].labels) == 0 || rng.Intn(racyEvery) != 0 {
+			if len(steps[pos-1].labels) == 0 || rng.Intn(racyEvery) != 0 || sp.Stalled {
 				continue
 			}
 			add(runH2(sp, "cancel", pos, true))
